@@ -133,6 +133,9 @@ def _cmp(name):
         x, y = m.deref(st, a), m.deref(st, b)
         if _is_option(m, x) or _is_option(m, y):
             return _cmp_option(m, st, name, x, y)
+        if x[0] == 'adt' and y[0] == 'adt' and x[1] == y[1] == 'core::mem::Discriminant' and name in ('eq', 'ne'):
+            same = x[3] == y[3]
+            return ('bool', same if name == 'eq' else not same)
         if name == 'partial_cmp':
             return _partial_cmp(m, st, x, y)
         if name == 'cmp':
@@ -658,6 +661,13 @@ def _mem_take(m, st, fr, callee, args, dest_ty, term):
             sx.call_local(st, fr, insts, 0, [], (tmp, ()), ('then', then))
             return [(st, None)]
     return ('unknown', 'mem::take of %s' % (ty or {}).get('s'))
+
+
+def _mem_discriminant(m, st, fr, callee, args, dest_ty, term):
+    """core::mem::discriminant(&v): an opaque token that identifies the variant"""
+    v = m.deref(st, args[0])
+    targs = callee.get('targs') or []
+    return [(s2, ('adt', 'core::mem::Discriminant', 0, (T.mk_int(e[2]),))) for s2, e in m.expand_enum(st, v, targs[0] if targs else None)]
 
 
 def _mem_replace(m, st, fr, callee, args, dest_ty, term):
@@ -1366,6 +1376,7 @@ MODELS = {
     'core::mem::swap': _mem_swap,
     'core::mem::replace': _mem_replace,
     'core::mem::take': _mem_take,
+    'core::mem::discriminant': _mem_discriminant,
     'core::option::Option::map_or': _opt_map_or,
     'core::option::Option::map': _opt_map,
     'core::option::Option::and_then': _opt_and_then,
